@@ -78,6 +78,14 @@ Inductive fobs : Type := FOut (out : list ritem) | FPanic (out : list ritem) (i 
 
 Definition list_ritem_eqb := list_eqb ritem_eqb.
 
+(* one child of a copied source, read directly (no merge): since the repair of F-C13d the shared
+   element records a panic of the source as an error item followed by the end of the stream, so a
+   copy child never panics on its reader's goroutine — it delivers what a forwarder would *)
+Definition child_read (src : list selem) : list ritem := fwd src.
+
+Definition child_legal (src : list selem) (o : fobs) : bool :=
+  match o with FOut out => list_eqb ritem_eqb (child_read src) out | _ => false end.
+
 Definition fwd_legal (srcs : list (list selem)) (o : fobs) : bool :=
   match srcs with
   | [] => false
